@@ -10,9 +10,9 @@ CONSTANTS
   JoinSet <- CoreJoins
   LeafPool <- TinyLeaves
   Indents = {0}
-  QuoteShapes <- CoreQuotes
+  QuoteShapes <- TinyQuotes
   ListShapes <- TinyLists
-  AtxShapes <- CoreAtx
+  AtxShapes <- TinyAtx
   Trails = {TRUE}
   KindWheel <- FlatWheel
   AtomWheel <- FlatAtomWheel
